@@ -24,7 +24,9 @@ GRANDCHILD = 5003   # child of CHILD (seen by children(recursive=True))
 NAME = b"proc-0123456789"          # 15 bytes: Process.name() consults cmdline()
 DEL_FD = "3"                       # live kind: this descriptor's target, exe and cwd end in " (deleted)"
 MAPS_DEL = ("lib.so (deleted)",)   # live kind: mapped file of smaps whose path ends in " (deleted)"
-DEVS = ("pts0", "tty1")            # tty nodes get_terminal_map() finds (under <files>/dev)
+DEVS = ("tty1", "pts/0")           # tty nodes get_terminal_map() finds: /dev/tty1, /dev/pts/0 (redirected to <files>/dev)
+GONE_DEV = "pts/0"                 # racy kind: unlinked between the scan's glob and its stat (pty freed by an exiting process)
+NEW_DEV = "pts/1"                  # a pty allocated AFTER the terminal map was memoised (stale map)
 START = 5000
 BOOT = 1500000000.0
 
@@ -32,13 +34,13 @@ KINDS = ("live", "kthread", "zombie", "racy")   # racy = live, with a descriptor
 RACE_FD, RACE_TASK = "5", "4243"
 
 
-def _stat(pid, comm, state, ppid, start):
+def _stat(pid, comm, state, ppid, start, ttynr=34816):
     f = [b"0"] * 53
     f[1] = str(pid).encode()
     f[2] = b"(" + comm + b")"
     f[3] = state
     f[4] = str(ppid).encode()
-    f[7] = b"34816"
+    f[7] = str(ttynr).encode()
     f[14], f[15], f[16], f[17] = b"11", b"7", b"3", b"2"
     f[20] = b"2"
     f[22] = str(start).encode()
@@ -99,11 +101,11 @@ def build_tree(root, files_dir, kind):
         with open(os.path.join(root, "net", n), "wb") as f:
             f.write(data)
 
-    def proc(pid, comm, state, ppid, start, full=False):
+    def proc(pid, comm, state, ppid, start, full=False, ttynr=34816):
         d = os.path.join(root, str(pid))
         os.makedirs(d)
         letter = state[:1]
-        for n, data in (("stat", _stat(pid, comm, letter, ppid, start)), ("status", _status(pid, comm, state, ppid))):
+        for n, data in (("stat", _stat(pid, comm, letter, ppid, start, ttynr)), ("status", _status(pid, comm, state, ppid))):
             with open(os.path.join(d, n), "wb") as f:
                 f.write(data)
         return d
@@ -114,7 +116,7 @@ def build_tree(root, files_dir, kind):
     proc(CHILD2, b"kidz", b"Z (zombie)", PID, 6100)
     proc(GRANDCHILD, b"grandkid", b"S (sleeping)", CHILD, 6200)
     state = b"Z (zombie)" if kind == "zombie" else b"S (sleeping)"
-    d = proc(PID, NAME, state, PPID, START)
+    d = proc(PID, NAME, state, PPID, START, ttynr=0 if base_kind == "racy" else 34816)
 
     def w(name, data):
         p = os.path.join(d, name)
@@ -127,6 +129,8 @@ def build_tree(root, files_dir, kind):
         f.write(b"#!/bin/sh\n")
     os.chmod(exe, 0o755)
     os.makedirs(os.path.join(files_dir, "dev"), exist_ok=True)
+    shutil.rmtree(os.path.join(files_dir, "dev"), ignore_errors=True)
+    os.makedirs(os.path.join(files_dir, "dev", "pts"))
     for n in DEVS:
         with open(os.path.join(files_dir, "dev", n), "wb") as f:
             f.write(b"")
@@ -172,6 +176,7 @@ def build_tree(root, files_dir, kind):
         w("fdinfo/%s" % name, b"pos:\t%d\nflags:\t0100002\nmnt_id:\t25\n" % int(name))
 
 
+BASE_EXT = {"racy": {("stat", "^dev/" + GONE_DEV): errno.ENOENT}}
 # base-kind errors that file permissions cannot produce when the harness runs as root
 BASE_ERRORS = {
     "zombie": {("listdir", "fd"): errno.EACCES, ("open", "io"): errno.EACCES},
@@ -237,9 +242,11 @@ class World(Shim):
     """Shim + fault model.  fault = {"vanish": k|None, "deny": {k: errno}}"""
 
     def __init__(self, root, kind, files=None):
-        Shim.__init__(self, {})
-        self.root = root
         self.files = files or (os.path.dirname(root) + "/files")
+        # the tty nodes live under the real names /dev/tty1, /dev/pts/*, redirected into the fake world
+        Shim.__init__(self, {"/dev/pts": self.files + "/dev/pts", "/dev/tty1": self.files + "/dev/tty1"})
+        self.root = root
+        self.nx = {}                 # access index -> errno for an access OUTSIDE procfs (ENOENT, ENOTDIR)
         self.kind = kind
         self.pdir = os.path.join(root, str(PID))
         self.vanish = None
@@ -250,11 +257,14 @@ class World(Shim):
         self.gone = False
         self.busy = False
         self.watch = lambda p: (not self.busy) and (p == root or p.startswith(root + "/")
-                                                    or p == self.files or p.startswith(self.files + "/"))
+                                                    or p == self.files or p.startswith(self.files + "/")
+                                                    or p == "/dev/tty1" or p == "/dev/pts" or p.startswith("/dev/pts/"))
         self.fault = self._fault
         self._sys = {}
 
     def rel(self, p):
+        if p.startswith("/dev/"):
+            return "^" + p[1:]                            # a tty node (redirected)
         if p == self.files or p.startswith(self.files + "/"):
             return "^" + p[len(self.files) + 1:]          # an ordinary file outside procfs
         return p[len(self.root) + 1:] if p != self.root else ""
@@ -304,6 +314,13 @@ class World(Shim):
             return _oserr(errno.ESRCH if kind in ("read", "sys") else errno.ENOENT, p)
         if idx in self.deny and self.is_proc(p):
             return _oserr(self.deny[idx], p)
+        r = self.rel(p)
+        if idx in self.nx and r.startswith("^") and r != "^dev":
+            e = self.nx[idx]
+            return NotADirectoryError(e, os.strerror(e), p) if e == errno.ENOTDIR else _oserr(e, p)
+        e = BASE_EXT.get(self.kind, {}).get((kind, r))
+        if e:
+            return _oserr(e, p)
         if self.is_self(p):
             e = BASE_ERRORS.get(self.kind, {}).get((kind, p[len(self.pdir) + 1:]))
             if e:
@@ -350,7 +367,11 @@ class World(Shim):
             if pat == "/dev/tty*":
                 devdir = os.path.join(me.files, "dev")
                 me._hit("listdir", devdir)
-                return [os.path.join(devdir, n) for n in DEVS]
+                me.busy = True
+                try:
+                    return ["/dev/" + n for n in DEVS + (NEW_DEV,) if os.path.exists(os.path.join(devdir, n))]
+                finally:
+                    me.busy = False
             if pat == "/dev/pts/*":
                 return []
             return me._glob(pat, *a, **kw)
@@ -538,7 +559,7 @@ def reset_psutil(psutil, root):
 
 
 def run_case(work, kind, mname, vanish=None, deny=None, sticky=False, ovanish=None, half=False, then=None,
-             low=False, reuse=False):
+             low=False, reuse=False, warm=False, nx=None):
     """Build the world, create the Process object (no faults), then run the method under the fault
     schedule.  Returns {"out": outcome, "log": labels, "gone": bool, "after": {method: outcome}}."""
     import psutil
@@ -559,8 +580,14 @@ def run_case(work, kind, mname, vanish=None, deny=None, sticky=False, ovanish=No
             # the pid is recycled: /proc/<pid> now describes ANOTHER process (other start time)
             with open(os.path.join(root, str(PID), "stat"), "wb") as f:
                 f.write(_stat(PID, b"recycled", b"S", PPID, START + 777))
+        if warm:
+            # the terminal map is memoised now; afterwards a new pty appears (the map is STALE from here on)
+            psutil._psposix.get_terminal_map()
+            with open(os.path.join(files, "dev", NEW_DEV), "wb") as f:
+                f.write(b"")
         w.reset()
         w.fault = w._fault
+        w.nx = {int(k): int(v) for k, v in (nx or {}).items()}
         w.vanish = vanish
         w.half = bool(half)
         w.deny = {int(k): v for k, v in (deny or {}).items()}
@@ -570,6 +597,7 @@ def run_case(work, kind, mname, vanish=None, deny=None, sticky=False, ovanish=No
         for m2 in then or []:
             # history on the SAME object: the later calls run without any new fault
             w.deny = {}
+            w.nx = {}
             psutil._psposix.get_terminal_map.cache_clear()      # module-level memo, not a field of the object
             outs.append(call_method(p, m2))
         log = w.labels()
